@@ -75,6 +75,42 @@ register("C07", "props.c07", ["ValidaProofs.C07"], 1000, 25000,
 register("C15", "props.c15", ["ValidaProofs.C15"], 1000, 25000,
          "half schema validations with 80% cast rules, half single rule tests with 90% cast rules, over documents holding castable and "
          "uncastable strings under keys of every type and list indices; distinct as C05/C06 tuples; non-trivial as there")
+register("C09", "props.c09", ["ValidaProofs.C09"], 1500, 40000,
+         "one case = a DSL term (every class x constructor pair twice, then random leaves and trees of depth<=3) and one spelling of "
+         "its spec (letter case, type/dtype len/length in/in_ eq/equal_to aliases, list vs mapping arguments, type names / map / type "
+         "objects); distinct = (class, callable) pairs; non-trivial = the term has at least one non-null leaf")
+register("C10", "props.c10", ["ValidaProofs.C10"], 1200, 30000,
+         "30% part specs (long / shorthand forms, labels), 25% path specs with datum / multiplicity suffixes in both orders, 10% path "
+         "strings, 35% rule specs (cast, every doc shape) also pushed through YAML text; each compared with the API-built object "
+         "(equality and behaviour on documents grown along the path); distinct = shape tuples; non-trivial = accepted spec")
+register("C11", "props.c11", ["ValidaProofs.C11"], 1500, 40000,
+         "one case = a condition tree of the fragment (all callables on value/key/index, length with numeric comparisons, type with "
+         "equality / membership; JSON-like, type and data-path arguments incl. literal mappings with path-like keys) pushed through "
+         "to_json_like, json.dumps/loads, from_json_like; distinct = (class, callable) pairs; non-trivial = every case")
+register("C12", "props.c12", ["ValidaProofs.C12"], 1200, 30000,
+         "one case = a path (45% of the serialisable shape: primitives and bare parts; 55% arbitrary parts, labels, modifiers) "
+         "serialised, rebuilt and compared on three documents; distinct = (emitted/refused, length, concrete, has mapping spec); "
+         "non-trivial = specs were emitted")
+register("C13", "props.c13", ["ValidaProofs.C13"], 600, 15000,
+         "one case = a schema of 0-4 rules in the serialisable fragment (C11 conditions, C12 paths, optional str->int / str->bool cast) "
+         "through to_json_like, JSON text, from_json_like, compared by equality and by validating three documents; distinct = "
+         "(#rules, casts?, longest path); non-trivial = at least one rule")
+register("C14", "props.c14", ["ValidaProofs.C14"], 2000, 50000,
+         "pairs (x, y) with y = x rebuilt, commuted or with one atom changed (argument, callable, class, operator, key, index, part "
+         "kind, label, cast) for conditions, paths and rules, plus transitivity triples; distinct = (level, mutation kind); "
+         "non-trivial = == returned")
+register("C16", "props.c16", ["ValidaProofs.C16"], 1200, 30000,
+         "one case = a well-formed condition / part / path / part-list / rule / schema spec (data-path arguments, escaped keys, "
+         "shorthand forms, casts, doc blocks) parsed three times with a type-exact identity-aware snapshot before and after every "
+         "parse; distinct = (parser, outcome); non-trivial = the spec parses")
+register("C17", "props.c17", ["ValidaProofs.C17"], 1500, 40000,
+         "one case = a rule whose condition tree has one or more path-valued arguments (positional, keyword, inside list / mapping "
+         "arguments; concrete and not; with modifiers) tested on a mapping document and compared with the same rule with the "
+         "resolved values substituted; plus escaped-key spellings; distinct = (valid, tested, #leaves); non-trivial = tested")
+register("C19", "props.c19", ["ValidaProofs.C19"], 2500, 60000,
+         "45% one definite error injected into a well-formed condition / part / path / rule spec (unknown datum kind, pre-processor, "
+         "callable, type name, suffix, part type, cast type, part argument; wrong arity / argument shape; several keys; missing "
+         "field), 55% 1-3 random structural mutations; distinct = (parser, injected error class, outcome); non-trivial = rejected")
 
 
 def log(msg):
